@@ -73,6 +73,8 @@ pub struct WorldCfg {
 	pub keep_images: bool,
 	pub deferred_monitor: bool,
 	pub connect_style: ConnectStyle,
+	/// optional per-node styles (overrides `connect_style`)
+	pub node_styles: Vec<ConnectStyle>,
 	/// indices of nodes whose signer policy checks against revoked-state signing are disabled (C06 cheater)
 	pub disable_revocation_policy: Vec<usize>,
 }
@@ -113,8 +115,11 @@ impl World {
 		let cfg_opts: Vec<Option<UserConfig>> = cfg.configs.iter().cloned().map(Some).collect();
 		let chanmgrs_v = create_node_chanmgrs(n, node_cfgs, &cfg_opts);
 		let chanmgrs: &'static Vec<SManager> = unsafe { arena.leak_any(chanmgrs_v) };
-		let nodes = create_network(n, node_cfgs, chanmgrs);
-		*nodes[0].connect_style.borrow_mut() = cfg.connect_style;
+		let mut nodes = create_network(n, node_cfgs, chanmgrs);
+		for (i, nd) in nodes.iter_mut().enumerate() {
+			let st = cfg.node_styles.get(i).cloned().unwrap_or(cfg.connect_style);
+			nd.connect_style = std::rc::Rc::new(std::cell::RefCell::new(st));
+		}
 		World { nodes, persisters, configs: cfg.configs, n, arena, restarts: vec![0; n], deferred: cfg.deferred_monitor }
 	}
 
@@ -171,11 +176,11 @@ impl World {
 
 	/// Restart `node` from a serialized manager and one serialized monitor per channel.
 	/// Peers are told the node disconnected. Returns Err(description) if deserialization fails.
-	pub fn restart(&mut self, node: usize, manager_bytes: &[u8], monitors: &[Vec<u8>]) -> Result<(), String> {
+	pub fn restart(&mut self, node: usize, manager_bytes: &[u8], monitors: &[Vec<u8>], connected_peers: &[usize]) -> Result<(), String> {
 		// tell everyone we are gone
 		let my_id = self.node_id(node);
 		for j in 0..self.n {
-			if j != node {
+			if j != node && connected_peers.contains(&j) {
 				self.nodes[j].node.peer_disconnected(my_id);
 				self.nodes[j].onion_messenger.peer_disconnected(my_id);
 			}
@@ -207,6 +212,18 @@ impl World {
 				Err(e) => return Err(format!("ChannelMonitor::read failed: {:?}", e)),
 			}
 		}
+		// Documented start-up procedure: every ChannelMonitor and the ChannelManager are brought to the chain
+		// tip separately before use. The node's block list survives the restart (it is the chain source).
+		let chain: Vec<(bitcoin::Block, u32)> = old.blocks.lock().unwrap().clone();
+		for m in mons.iter() {
+			let from = m.current_best_block().height;
+			for (blk, h) in chain.iter() {
+				if *h > from {
+					let txdata: Vec<(usize, &bitcoin::Transaction)> = blk.txdata.iter().enumerate().collect();
+					m.block_connected(&blk.header, &txdata, *h, tx_broadcaster, fee_estimator, logger);
+				}
+			}
+		}
 		let mut channel_monitors = lightning::util::hash_tables::new_hash_map();
 		for m in mons.iter() {
 			channel_monitors.insert(m.channel_id(), m);
@@ -233,6 +250,15 @@ impl World {
 			Err(e) => return Err(format!("ChannelManager::read failed: {:?}", e)),
 		};
 		let mgr: &'static SManager = unsafe { self.arena.leak_any(mgr) };
+		{
+			use lightning::chain::Listen;
+			let from = mgr.current_best_block().height;
+			for (blk, h) in chain.iter() {
+				if *h > from {
+					mgr.block_connected(blk, *h);
+				}
+			}
+		}
 		for m in mons {
 			let chan = m.channel_id();
 			let id = m.get_latest_update_id();
